@@ -28,6 +28,7 @@ func ruleC13(r *Report) {
 	checkEnveloped(r, p)
 	checkSignedOctets(r, p)
 	checkSPMetadataSigning(r, p)
+	checkConfigReadOnly(r, p, "C13.method-key", "saml", "ServiceProvider")
 	signers := map[*ssa.Function]bool{}
 	for _, fn := range p.modFns {
 		if p.InLibrary(fn) && len(callsTo(fn, "(*github.com/russellhaering/goxmldsig.SigningContext).SignEnveloped")) > 0 {
@@ -140,16 +141,21 @@ func checkMethodKey(r *Report, p *Prog) {
 	}
 	r.Check(okKey, rule, t.name+": context built from sp.Key", p.Pos(fn.Pos()), "NewSigningContext(sp.Key, chain)", "the signing context is not built from the SP's configured key")
 	okChain := false
+	chainWhy := "the certificate chain does not start with the SP's certificate (the one published in metadata)"
 	rgK.Each(func(x RI) {
 		if st, ok := x.I.(*ssa.Store); ok {
 			if ia, ok := st.Addr.(*ssa.IndexAddr); ok {
 				if k, ok := constInt(ia.Index); ok && k == 0 && strings.HasSuffix(rgK.Ctx(t.A, x.C).AP(st.Val), "ServiceProvider.Certificate.Raw") {
 					okChain = true
+					if why := headOverwritten(p, ia.X, st); why != "" {
+						okChain = false
+						chainWhy = why
+					}
 				}
 			}
 		}
 	})
-	r.Check(okChain, rule, t.name+": chain starts with sp.Certificate", p.Pos(fn.Pos()), "chain[0] = sp.Certificate.Raw", "the certificate chain does not start with the SP's certificate (the one published in metadata)")
+	r.Check(okChain, rule, t.name+": chain starts with sp.Certificate", p.Pos(fn.Pos()), "chain[0] = sp.Certificate.Raw", chainWhy)
 	nSet := 0
 	for _, x := range rgK.Calls("(*" + dsigPath + ".SigningContext).SetSignatureMethod") {
 		c := x.I.(*ssa.Call)
